@@ -15,6 +15,8 @@ CHECKS = {
               "tied to the code by a differential run on generated meshes (identical outputs up to edge numbering), and the same Lean "
               "predicate is evaluated on the implementation's own output. handshake / handshake_closed: the (face, slot) incidences summed over the derived edges equal the sum of n_nodes_per_face, and 2*n_edge = that sum when every edge bounds two face slots. "
               "spec_unique: any output meeting Spec equals the model's up to the numbering of the edges (justifies the canonicalised comparison). "
+              "The same verdict is asked of grids DERIVED from the generated ones (random reads on the parent first, then 1-2 isel(n_face=...) selections "
+              "in any order and shape - non-adjacent, notched, single - and copy()): Edges.Spec on the derived grid's own face table. "
               "Euler's formula itself (topology of the sphere) is tested on generated sphere tilings only."),
         note=_TB + "Modelled, not verified: NumPy's np.unique/argmax/searchsorted/reshape semantics, xarray storage; Euler count.",
         technique="Lean 4 theorem over a hand model + differential correspondence with Lean-evaluated spec",
@@ -31,7 +33,9 @@ CHECKS["C03"] = dict(
           "(keyedFold_get). pre_of_edges_build / pipeline_meets_spec compose C02 and C03: on EVERY manifold standard-form face table the "
           "edge tables derived by the C02 model meet Pre (manifoldness is the only hypothesis left, a fact about the mesh), so the incidence "
           "tables built from them satisfy the spec end to end. The model is tied to the code by a differential run (outputs identical, 48/48 in quick) and the "
-          "same Lean predicate is evaluated on the implementation's output; dtype and _FillValue are run-time assertions."),
+          "same Lean predicate is evaluated on the implementation's output; dtype and _FillValue are run-time assertions. Grids DERIVED from the "
+          "generated ones (random reads on the parent first - incl. the incidence tables themselves - then isel by faces in any order / nodes / "
+          "edges, chains, copy()) are judged by the same spec against their own face table."),
     note=_TB + "Modelled, not verified: Python dict/list/np.pad semantics, numba compilation of the edge_face loop; "
          "face_edge/n_nodes_per_face are inputs (their correctness is C02). File-supplied tables (MPAS) only when small enough.",
     technique="Lean 4 theorem over a hand model + differential correspondence with Lean-evaluated spec",
@@ -77,7 +81,7 @@ CHECKS["C20"] = dict(
 
 CHECKS["C16"] = dict(
     text=("Lean theorems UxVerif.C16.*: over ℝ the law-of-cosines expression the code evaluates is the dot product of the two unit "
-          "vectors and its arccos equals the independent atan2 oracle (lawcos_eq_dot, gcDist_eq_oracle); with typed node/face indices "
+          "vectors and its arccos equals the independent atan2 oracle (lawcos_eq_dot, gcDist_eq_oracle); the distance model carries an explicit normalisation step and depends only on directions - dist(c*a, d*b) = dist(a, b) for c, d > 0, for the model and for the oracle, and on Cartesian images of any radii it equals the lon/lat distance (dirDist_scale_invariant, oracleAngle_scale_invariant, dirDist_xyz_eq_gcDist, edgeFaceDistXYZ_scale_invariant, edgeFaceDistXYZ_eq_edgeFaceDist); with typed node/face indices "
           "edge_node_distances reads node arrays at the edge's nodes and edge_face_distances reads face-centre arrays at "
           "the edge's faces, 0 on boundary edges (edgeFaceDist_uses_face_centres, _boundary_zero); for EVERY edge table, data, distance "
           "table and number of leading slices over any ordered field: difference = |a-b| over the edge's own faces/nodes, zero on "
@@ -86,11 +90,11 @@ CHECKS["C16"] = dict(
           "leading_independent, result_dims); source-supplied MPAS tables follow the mesh's own node/face roles (mpas_supplied_roles). "
           "The three defects of the snapshot (repaired by fix commits 859be677, d402cfa7, 1559d829) stay as proved counterexamples "
           "(asis_edge_face_dist_wrong, asis_normalize_global_norm, asis_mpas_dual_swapped). Tie: differential run on generated grids "
-          "(n_face>n_node and <n_node, boundary edges, supplied face centres, synthetic MPAS primal/dual, MPAS sample) where the Lean "
+          "(n_face>n_node and <n_node, boundary edges; coordinates supplied as lon/lat or Cartesian of unit / one / mixed radii, face centres absent / lon-lat / Cartesian of any radius / un-normalised corner mean, source-supplied edge tables with the two faces in either order, random access history incl. normalize_cartesian_coordinates() and distances-first; synthetic MPAS primal/dual, MPAS/Exodus/UGRID samples) where the oracle measures between the positions the source supplied and the Lean "
           "driver evaluates the specs on the implementation's output: differences/gradients bit-exactly, distances against the atan2 "
           "oracle under a conditioning-aware tolerance, unit norm 1e-12."),
     note=_TB + "Modelled, not verified: IEEE rounding/libm (float clauses are tolerance tests), NumPy fancy indexing and xarray dims, "
-         "numba kernels; face centres are the grid's own face_lon/face_lat (C04). Zero-gradient slices (0/0) are not judged for unit "
+         "numba kernels; centres are the source-supplied positions as directions; where the source supplies none, the grid's own face_lon/face_lat (C04). Zero-gradient slices (0/0) are not judged for unit "
          "norm.",
     technique="Lean 4 theorems (ℝ geometry + ordered-field operator laws, typed indices) + differential correspondence with Lean-evaluated spec and geodesic oracle",
 )
@@ -139,8 +143,8 @@ CHECKS["C18"] = dict(
 CHECKS["C01"] = dict(
     text=("Lean theorems over executable reader models (Model/Readers.lean), for meshes of ANY size/width/node count: "
           "UxVerif.C01.ugrid_roundtrip / topology_roundtrip (decode (encode d w m) = ok (pad w m) for every dialect meeting the decidable "
-          "DialectOK/TopoOK: start_index 0/1/absent, fill int/NaN/NaN-attr/none, any dtype, extra width), mpas_primal_roundtrip (any padding "
-          "content), mpas_dual_roundtrip, mpas_zeros_reindex (supplied tables carried over entrywise), esmf_roundtrip, exodus_roundtrip/"
+          "DialectOK/TopoOK: start_index 0/1/absent, fill int/NaN/NaN-attr/none, any dtype, extra width), decodeUgrid_table_local + ugrid_dataset_roundtrip (every connectivity table of a UGRID dataset - face_node and the optional edge_node/edge_face/face_edge/face_face/node_face/node_edge - decodes from its OWN variable only; a dataset whose tables are each written in an independently drawn dialect decodes table by table to the standard table of that table's element lists), mpas_primal_roundtrip (any padding "
+          "content), mpas_dual_roundtrip, mpas_zeros_reindex / mpas_cells_reindex (supplied tables carried over entrywise, incl. per-cell tables with missing entries inside the valid prefix), esmf_roundtrip, exodus_roundtrip/"
           "exodus_count (any number/order of blocks), icon_roundtrip, geos_corners/geos_order/geos_count/geos_in_range/geos_cyclic, "
           "scrip_positions/scrip_nodes_nodup/scrip_in_range, vertices_positions, rings_positions (decoded corner positions = source positions, "
           "padding only at the end; scrip_positions covers the repeated-last-corner dialect: real corners then FILL, for faces whose last two corners differ), spec_pad/stdForm_pad (the result is C02's standard form), normLon_range/congr/idem, setRange_ok/"
@@ -148,11 +152,11 @@ CHECKS["C01"] = dict(
           "differential run (~1500 sources quick, ~18000 thorough: in-memory datasets, NetCDF files re-opened by path, arrays, dicts, GeoJSON) "
           "in which the Lean predicate Readers.Spec is evaluated by the driver on the implementation's face_node_connectivity (node numbers "
           "mapped to source nodes by position), the Lean model must equal the implementation up to the start corner, and the harness-side "
-          "encoding is compared with Lean's encodeUgrid/encodeTopology; 16 usable sample files judged against an independent raw decoding. "
+          "encoding is compared with Lean's encodeUgrid/encodeTopology; UGRID sources carry optional tables each in its own dialect; MPAS sources include regional meshes and a cut-out of the sample file with all optional tables; every carried table is compared entry by entry with the Lean decoders; every in-memory source is opened repeatedly (primal->dual->primal) and snapshotted (signature .../source-modified-by-reading); 16 usable sample files judged against an independent raw decoding. "
           "dtype, _FillValue, lon/lat ranges, n_node, carried-over centres/tables/areas are run-time assertions (test level)."),
     note=_TB + "Modelled, not verified: netCDF4/xarray decoding (_FillValue masking), geopandas/pyogrio parsing, NumPy astype/np.unique/reshape, "
          "float rounding of rad2deg and xyz->lonlat (positions compared with chord tolerance 1e-7). GEOS-CS reference orientation is the "
-         "lattice perimeter order. MPAS dual only for closed meshes of valence >= 3. Sample files > 3600 faces: Spec on sampled chunks in the quick tier. The malformed-input stream of DESIGN §3 was not built.",
+         "lattice perimeter order. MPAS dual only for closed meshes of valence >= 3. Sample files > 3600 faces: Spec on sampled chunks in the quick tier. An undeclared-base table that does not use its lowest index is ambiguous: generated, recorded, not judged. The malformed-input stream of DESIGN §3 was not built.",
     technique="Lean 4 theorems (per-dialect round trips, index arithmetic, ordered-field laws) over hand models + differential correspondence with Lean-evaluated spec",
 )
 
@@ -188,11 +192,11 @@ CHECKS["C12"] = dict(
           "metric meets the hypotheses: chordSq_pos); IDW over every linear ordered field, every eps>0, every natural or real power>=0 "
           "(natPow_ok, rpow_ok): idw_weights_nonneg, idw_weights_sum_one, idw_antitone, idw_between_min_max, idw_const, and end to end incl. "
           "selection and gather idwAt_between_min_max / idwAt_const / idwAt_weights_meet_spec; chord_le_iff_arc_le (cartesian order = great-circle "
-          "order on unit vectors); remap_dims, remap_shape, kind_by_dim (element kind by dimension NAME), k_guard; as-is counterexamples "
+          "order on unit vectors); remap_dims, remap_shape, kind_by_dim (element kind by dimension NAME), k_guard; remapNN_depends_only_on_coords / remapIDW_depends_only_on_coords (a remap depends on the two grids only through the centre coordinates they report, not on identity or Grid.__eq__), remapNN_identity_of_same_points, counterexample shortcut_on_equal_grids_wrong; as-is counterexamples "
           "asis_kind_by_length, asis_single_destination_drops_axis, asis_idw_single_destination_raises, asis_k_guard_refuses_admissible with "
           "partial theorems (snapshot defects repaired by fixes 9bf354d9, 6e6dffe2, 52d879b4). Tie: differential run through UxDataArray.remap on "
           "generated grid pairs (n_node=n_face and n_node=n_edge grids, single-face destinations, file-supplied lon/lat and xyz centres, MPAS "
-          "sample, near-coincident and polar grids) x 3 source kinds x 3 destinations x 2 coordinate types x ranks 1..3 x k in 2..n x 6 powers: "
+          "sample, near-coincident and polar grids, pairs of DISTINCT grids that Grid.__eq__ calls equal but that carry a supplied edge table (other edge numbering), supplied face centres, supplied edge centres, or are a copy()) x 3 source kinds x 3 destinations x 2 coordinate types x ranks 1..3 x k in 2..n x 6 powers: "
           "the Lean driver brute-forces the (k) nearest over the grids' reported points, discards near-ties (<1e-9, counted) and evaluates "
           "nnSpecB / convexity (withinB) on the implementation's output; one-hot data expose the implementation's weights, judged by weightsOkB "
           "(support = the k nearest, >=0, sum 1, non-increasing) and compared with the model. Histories (remap -> change the source's / "
@@ -246,7 +250,7 @@ CHECKS["C04"] = dict(
 )
 
 CHECKS["C09"] = dict(
-    text=("Lean theorems (UxVerif.C09, 130 obligations) about the model of _slice_face_indices: "
+    text=("Lean theorems (UxVerif.C09, 133 obligations) about the model of _slice_face_indices: "
           "slice_meets_spec — for EVERY source whose own edge tables meet C02's spec and EVERY valid duplicate-free face-index list the "
           "subset records exactly the request, every subset face has the corners of its source face in the same order (read through the "
           "recorded node indices), its nodes/edges are exactly those of the selected faces, and its re-indexed edge tables satisfy C02's "
@@ -260,10 +264,10 @@ CHECKS["C09"] = dict(
           "counterexamples for what the snapshot did before the two fix commits. Tie: differential run through Grid.isel / Grid.subset.* / "
           "Grid.cross_section.constant_latitude / get_faces_at_constant_latitude and the UxDataArray counterparts on generated meshes (25% "
           "with their own edge tables) and the MPAS sample, random materialisation histories, all index forms, antimeridian boxes, latitudes "
-          "equal to a node's, and chains of 1-2 further selections on UNOBSERVED intermediate sub-grids judged step by step against their own source and against a fresh twin; the Lean driver evaluates Slice.Spec, C03's Incidence.Spec, Touching/SameSet/CrossSpec/DataAligned on the "
+          "equal to a node's, and chains of 1-2 further selections on UNOBSERVED intermediate sub-grids judged step by step against their own source and against a fresh twin; 30% of the sources (roots and intermediate sub-grids of chains) are dask-backed: Grid.chunk with random arguments is applied at a random point of the materialisation history, and the un-chunked un-materialised twin is the reference (slice_backing_irrelevant / efd_backing_irrelevant: the backing - numpy or dask - is a field of the model's source state that no getter or slicer reads; Grid.chunk is a history operation, Var.chunk, covered by every history theorem); the Lean driver evaluates Slice.Spec, C03's Incidence.Spec, Touching/SameSet/CrossSpec/DataAligned on the "
           "implementation's output and the Lean state machine must reproduce every table reported."),
     note=_TB + "Modelled, not verified: xarray isel/attrs/drop_vars and NumPy unique/fancy indexing (differential only); reference-point "
-         "coordinates (C04) and tree distances (C11) are taken from the implementation and judged with a 1e-9 margin; numba prange "
+         "dask / xarray lazy-array semantics themselves (what .values, .where and isel do on a dask array) are only exercised, not modelled: the model states that the backing is irrelevant and the differential run fails wherever the implementation makes it relevant; coordinates (C04) and tree distances (C11) are taken from the implementation and judged with a 1e-9 margin; numba prange "
          "scheduling is exercised with 1/2/7/16 threads (set_num_threads per case, NUMBA_NUM_THREADS sub-processes in thorough) but only the "
          "order-independence of the loop body is proved; Incidence.Pre and DistinctFaces of the subset are evaluated per case (static decidable table properties), not derived from the source's; "
          "geometric quantities of the subset are compared with the source's at the recorded indices (float tolerance 1e-9). Latitudes equal "
@@ -275,17 +279,17 @@ CHECKS["C09"] = dict(
 CHECKS["C19"] = dict(
     text=("Lean theorems over a heap of references (UxVerif.C19): construct_readonly (every constructor only allocates: for EVERY heap, "
           "variable list and choice of wrapped input buffers, nothing an input can reach is modified), copy_disjoint / export_disjoint_* "
-          "(Grid.copy and the exporters return objects sharing no cell with the grid), and copy_independent (+ interleaved form): "
+          "(Grid.copy and the exporters return objects sharing no cell with the grid), copy_caches_empty / grid_copy_independent_caches (the copy starts with empty caches and ANY history of dataset mutators and cache operations - filling a tree / GeoDataFrame cache with an object that refers back to its grid, switching a tree in place - on one side leaves the other untouched; handover_copy_shares proves that handing a cached helper over makes the copy reach the original grid), and copy_independent (+ interleaved form): "
           "if two objects share no cell then ANY history of mutator actions on one leaves every cell the other reaches untouched — induction "
           "over unbounded histories. The verdict on the real code is Lean's: the object graph of the live Python objects (Grid, Dataset, "
-          "Variable, attrs dicts, buffers by np.shares_memory, caches, exported objects) is extracted before/after every constructor x container "
+          "Variable, attrs dicts, buffers by np.shares_memory, every attribute of Grid.__dict__ including cached helper objects (ball/kd tree wrappers walked through their fields, cached GeoDataFrame/collections), exported objects) is extracted before/after every constructor x container "
           "kind x dtype/fill/start_index variant, copy, export and mutation step and judged by the checkers judge/frameJ, whose answers are "
           "certified in both directions (judge_sep, judge_shared, frameJ_ok, frameJ_changed). Public observations and re-exports are compared as "
-          "well; the abstract scenario is run in the Lean model (as-is and repaired) and the code may alias no more than the model. The "
+          "well; caches are built before copying (get_ball_tree/get_kd_tree, subset.nearest_neighbor/bounding_circle, remap, to_geodataframe/...); after mutating one side the other side's tree answers are compared with a twin grid built from the same input, in both directions, and an identity audit of copy.__dict__ vs original.__dict__ runs on every copy; the abstract scenario is run in the Lean model (as-is and repaired) and the code may alias no more than the model. The "
           "snapshot's aliasing is proved (asis_*) and was repaired by fixes 29dff011, c33e40e3, 5f6834f5, e8eed1a0; dataset adoption and "
           "cached GeoDataFrame/LineCollection hand-out are known findings."),
     note=_TB + "Modelled, not verified: completeness of the extracted object graph (module-level state is C08's subject), CPython/NumPy/xarray "
-         "aliasing semantics (zero-copy wrapping, Dataset.copy(deep=True), drop_vars), the mapping of real API calls to model operations. Zero-copy "
+         "aliasing semantics (zero-copy wrapping, Dataset.copy(deep=True), drop_vars), the mapping of real API calls to model operations. A grid's own stale tree after its own setters is not judged here (C08/C11). Zero-copy "
          "wrapping of input coordinate arrays is not judged (the statement forbids modifying inputs, not reading them in place). Differential-test level only.",
     technique="Lean 4 theorems (all heaps, all histories) + verified graph checkers run on the real object graph + differential correspondence",
 )
